@@ -217,6 +217,29 @@ class _SubstNames(ast.NodeTransformer):
     def visit_Lambda(self, n):
         return n
 
+    def visit_JoinedStr(self, n):
+        n = self.generic_visit(n)
+        # f"{'032c'}{x:02x}" -> f"032c{x:02x}": a constant string substituted into a placeholder is a literal piece
+        vals = []
+        for v in n.values:
+            if isinstance(v, ast.FormattedValue) and isinstance(v.value, ast.Constant) and isinstance(v.value.value, str) \
+                    and v.format_spec is None and v.conversion == -1:
+                v = ast.copy_location(ast.Constant(value=v.value.value), v)
+            if isinstance(v, ast.Constant) and vals and isinstance(vals[-1], ast.Constant):
+                vals[-1] = ast.copy_location(ast.Constant(value=str(vals[-1].value) + str(v.value)), vals[-1])
+            else:
+                vals.append(v)
+        n.values = vals
+        return n
+
+    def visit_Call(self, n):
+        n = self.generic_visit(n)
+        # (lambda: body)()  ->  body      (a callable argument substituted into its call site)
+        if isinstance(n.func, ast.Lambda) and not n.args and not n.keywords and not n.func.args.args and not n.func.args.kwonlyargs \
+                and n.func.args.vararg is None and n.func.args.kwarg is None:
+            return n.func.body
+        return n
+
 
 def subst(e: ast.AST, env: Dict[str, ast.expr]) -> ast.AST:
     """Copy of *e* with the (loaded) names of *env* replaced by their expressions."""
